@@ -324,6 +324,44 @@ fn subset_failure(f: Fmt, k: &KD, mask: u8) -> Option<String> {
     None
 }
 
+fn want_kind(mask: u8) -> &'static str {
+    if mask & 1 != 0 && mask & 2 != 0 {
+        "task"
+    } else if mask & 2 != 0 {
+        "sentence"
+    } else {
+        "term"
+    }
+}
+
+/// the subset strings in `order` through parse_multi; Some((mask, why)) on the first misclassification
+fn batch_failure(f: Fmt, k: &KD, order: &[u8]) -> Option<(u8, String)> {
+    let texts: Vec<String> = order.iter().map(|m| subset_string(f, k, *m)).collect();
+    let r = observe(|| {
+        f.e()
+            .parse_multi(texts.iter().map(|s| s.as_str()))
+            .into_iter()
+            .map(|r| r.ok().map(|v| canon_real_narsese(&v)))
+            .collect::<Vec<Option<String>>>()
+    });
+    let rs = match r {
+        Obs::Ret(rs) => rs,
+        Obs::Panic(p) => return Some((0, format!("parse_multi panicked on the subset batch: {}", p))),
+    };
+    for (i, m) in order.iter().enumerate() {
+        let prev = if i > 0 { format!("{:?}", texts[i - 1]) } else { "nothing".to_string() };
+        match rs.get(i) {
+            Some(Some(c)) => {
+                if kind_of_canon(c) != want_kind(*m) {
+                    return Some((*m, format!("parse_multi classifies {:?} as a {} (its items imply a {}) after {}", texts[i], kind_of_canon(c), want_kind(*m), prev)));
+                }
+            }
+            _ => return Some((*m, format!("parse_multi rejects {:?} (its items imply a {}) after {}", texts[i], want_kind(*m), prev))),
+        }
+    }
+    None
+}
+
 fn report(ctx: &mut Ctx, sig: String, what: String, detail: J) {
     ctx.report.violate(sig, what, detail);
 }
@@ -381,6 +419,25 @@ pub fn run(ctx: &mut Ctx) {
                 // all 16 item subsets of one task description
                 let d__ = 1 + rng.below(3);
                 let k = g.task(&mut rng, d__);
+                // ... and the same 16 strings as ONE parse_multi batch in shuffled order: the class of
+                // each result must follow from the items of its own input, whatever came before it
+                let mut order: Vec<u8> = (0u8..16).collect();
+                rng.shuffle(&mut order);
+                if let Some((mask, w)) = batch_failure(f, &k, &order) {
+                    ctx.report.violate(
+                        format!("C15|subset-batch|{}|{}", f.name(), w.split(" after ").next().unwrap_or("")),
+                        format!("[{}] {}", f.name(), w),
+                        J::obj()
+                            .set("model", "subset-batch")
+                            .set("format", f.name())
+                            .set("mask", mask as usize)
+                            .set("order", J::Arr(order.iter().map(|m| J::from(*m as usize)).collect()))
+                            .set("value", ND::Task(k.clone()).to_json())
+                            .set("why", w.clone()),
+                    );
+                }
+                ctx.report.eval();
+                ctx.report.bump("subset-batches through parse_multi");
                 for mask in 0u8..16 {
                     ctx.report.eval();
                     ctx.report.bump(&format!("subset.{:04b}", mask));
@@ -416,6 +473,15 @@ pub fn replay(ctx: &mut Ctx, d: &J) -> Option<()> {
             let nd = nd_from_json(d.get("value")?)?;
             if let Some(w) = enum_laws(f, &nd) {
                 ctx.report.violate(format!("C15|enum|{}|{}", f.name(), nd.canon()), w, d.clone());
+            }
+        }
+        "subset-batch" => {
+            let nd = nd_from_json(d.get("value")?)?;
+            let order: Vec<u8> = d.get("order")?.as_arr()?.iter().filter_map(|x| x.as_i128().map(|v| v as u8)).collect();
+            if let ND::Task(k) = nd {
+                if let Some((_, w)) = batch_failure(f, &k, &order) {
+                    ctx.report.violate(format!("C15|subset-batch|{}", f.name()), w, d.clone());
+                }
             }
         }
         "subset" => {
